@@ -22,7 +22,7 @@ import (
 	"verifharness/mbt"
 )
 
-var tracked = []string{"u1", "u2", "att", "vault", "vdep", "mal", "mdep", "coll"}
+var tracked = []string{"u1", "u2", "att", "vault", "vdep", "mal", "mdep", "rtr", "rdep", "coll"}
 
 type world struct {
 	e     *appenv.Env
@@ -48,6 +48,8 @@ func newWorld() *world {
 	w.addr["vdep"] = appenv.DepositAddr(vaultPath)
 	w.addr["mal"] = appenv.PkgAddr(malPath)
 	w.addr["mdep"] = appenv.DepositAddr(malPath)
+	w.addr["rtr"] = appenv.PkgAddr(routerPath)
+	w.addr["rdep"] = appenv.DepositAddr(routerPath)
 	w.addr["coll"] = crypto.AddressFromPreimage([]byte("fee_collector"))
 	e, err := appenv.New(appenv.Options{
 		MaxGas: 3_000_000_000,
@@ -55,6 +57,7 @@ func newWorld() *world {
 			w.addr["deployer"]: 1_500_000_000, w.addr["vault"]: 300_000_000, w.addr["mal"]: 5_000_000},
 		Deployer: w.accts["deployer"],
 		Pkgs: []appenv.Pkg{
+			{Path: routerPath, Files: map[string]string{"router.gno": routerSrc}},
 			{Path: vaultPath, Files: map[string]string{"vault.gno": sub(vaultSrc, w)}},
 			{Path: malPath, Files: map[string]string{"mal.gno": sub(malSrc, w)}},
 		},
@@ -91,8 +94,8 @@ func (w *world) coins(addr crypto.Address) std.Coins {
 type obs struct {
 	U map[string]int64 // ugnot per tracked address
 	V map[string]int64 // vcoin per tracked address
-	C [5]int64         // vault counters: spends, origin uses, issues, delegations, len(blob)
-	StorV, StorM int64 // storage bytes of vault / mal (vm/qstorage)
+	C [6]int64         // vault counters: spends, origin uses, issues, delegations, len(blob), origin-banker hand-overs
+	StorV, StorM, StorR int64 // storage bytes of vault / mal / router (vm/qstorage)
 }
 
 func (w *world) storage(path string) int64 {
@@ -117,8 +120,8 @@ func (w *world) observe() obs {
 		mbt.Die("qeval: %v", err)
 	}
 	s = strings.TrimSuffix(strings.TrimPrefix(strings.TrimSpace(s), `("`), `" string)`)
-	fmt.Sscanf(s, "%d,%d,%d,%d,%d", &o.C[0], &o.C[1], &o.C[2], &o.C[3], &o.C[4])
-	o.StorV, o.StorM = w.storage(vaultPath), w.storage(malPath)
+	fmt.Sscanf(s, "%d,%d,%d,%d,%d,%d", &o.C[0], &o.C[1], &o.C[2], &o.C[3], &o.C[4], &o.C[5])
+	o.StorV, o.StorM, o.StorR = w.storage(vaultPath), w.storage(malPath), w.storage(routerPath)
 	return o
 }
 
@@ -132,6 +135,7 @@ type msgSpec struct {
 	Send   int64    `json:"send,omitempty"`   // ugnot sent along (call/run) or transferred (send)
 	MaxDep int64    `json:"maxdep,omitempty"` // storage deposit limit
 	Script string   `json:"script,omitempty"`
+	Parts  string   `json:"parts,omitempty"` // run: instalment list substituted for PARTS (first part for PARTA)
 	To     string   `json:"to,omitempty"`
 	Denom  string   `json:"denom,omitempty"` // send: "" = ugnot, "v" = vcoin
 }
@@ -177,7 +181,12 @@ func (w *world) build(t txSpec) std.Tx {
 			mc.MaxDeposit = dep
 			msgs = append(msgs, mc)
 		case "run":
-			mr := vm.NewMsgRun(s.Addr, send, []*std.MemFile{{Name: "main.gno", Body: sub(scripts[m.Script], w)}})
+			body := sub(scripts[m.Script], w)
+			if m.Parts != "" {
+				body = strings.ReplaceAll(body, "PARTS", m.Parts)
+				body = strings.ReplaceAll(body, "PARTA", strings.Split(m.Parts, ",")[0])
+			}
+			mr := vm.NewMsgRun(s.Addr, send, []*std.MemFile{{Name: "main.gno", Body: body}})
 			mr.MaxDeposit = dep
 			msgs = append(msgs, mr)
 		case "send":
@@ -242,7 +251,7 @@ func (w *world) exec(t txSpec, pre obs) (line, obs, string) {
 	l := line{"act": "Tx", "label": t.Label, "cls": t.Cls, "signer": t.Signer, "fee": t.Fee, "sends": sends, "sendsV": sendsV, "maxdep": maxdep,
 		"run": run, "ok": r.IsOK(), "kind": kind, "pre": pre.U, "post": post.U, "preV": pre.V, "postV": post.V,
 		"spends": post.C[0] - pre.C[0], "origin": post.C[1] - pre.C[1], "issues": post.C[2] - pre.C[2], "deleg": post.C[3] - pre.C[3],
-		"storV": post.StorV - pre.StorV, "storM": post.StorM - pre.StorM}
+		"ogrant": post.C[5] - pre.C[5], "storV": post.StorV - pre.StorV, "storM": post.StorM - pre.StorM, "storR": post.StorR - pre.StorR}
 	return l, post, log
 }
 
